@@ -48,7 +48,7 @@ def vw(b):
 class C14(Prop):
     id = "C14"
     title = "Output reaches the client in order, exactly once, under any write pattern"
-    lean_modules = ["NV.C14.Props", "NV.C14.PropsHist"]
+    lean_modules = ["NV.C14.Props", "NV.C14.PropsHist", "NV.C14.PropsNeg"]
     theorems = ["NV.C14.model_satisfies_spec", "NV.C14.ring_inv", "NV.C14.ring_indices_in_bounds",
                 "NV.C14.chunk_in_bounds", "NV.C14.no_fault", "NV.C14.write_interest_when_pending",
                 "NV.C14.N_two_le", "NV.C14.only_tail_lost", "NV.C14.write_stores_prefix_image",
@@ -82,11 +82,21 @@ class C14(Prop):
             "EINTR, close/peer close/peer FIN with pending data) + seeded random histories of write/vwrite/sendres/"
             "flush/cycle/wready/close/peerfin/peerclose with message lengths on both sides of the buffer size, "
             "LF densities 0..1 and send scripts of partial/W/I/P/E results, half of them started at a random ring "
-            "offset, for three kinds of user (PORT_ASCII, PORT_TELNET with its connect negotiation, console user); a case is non-trivial when its trace has >= 2 lines; distinct = distinct canonical "
+            "offset, for three kinds of user (PORT_ASCII, PORT_TELNET with its connect negotiation, console user), one to "
+            "three users per case with independent send scripts, snoop links (set, replaced, loop refused, cleared by "
+            "close), flush_messages() efun with and without argument, send results given as plain errno numbers; the "
+            "quantifier of the property is covered as: writes of all lengths = 0,1,2,10,100,1000,N-2..N+2,2N,3N+7,random "
+            "up to 12400 bytes; send results = full, partial of every size class (1..5, 6..600, around N, up to the ring "
+            "end +-2, any), EWOULDBLOCK, EINTR, EPIPE, ECONNRESET; flush points = explicit, per cycle, write-ready, "
+            "efun, close, peer close, peer FIN; a case is non-trivial when its trace has >= 2 lines; distinct = distinct canonical "
             "implementation trace")
     not_covered = ["console reconnect (console_mode option) and the console worker thread; the console user's output path "
                    "itself (write(2) branch of flush_message, flush at the end of add_message) is modelled and run",
-                   "snoop forwarding (receive_snoop) from add_message/add_vmessage (an LPC call after the loop; does not touch the ring)",
+                   "telnet negotiation replies written from copy_chars (input driven) interleaved with text: they use the same "
+                   "add_message/flush_message calls, but no C14 case sends input bytes",
+                   "snooper LPC code that itself writes to users (re-entrancy of add_message from receive_snoop)",
+                   "several users: routing, snoop relation and tagging are compared with the implementation, not proved "
+                   "(each user's own stream is a single-user run by construction)",
                    "telnet IAC doubling is not done by the code and not claimed",
                    "builds with FLUSH_OUTPUT_IMMEDIATELY",
                    "Windows IOCP runtime (only the Linux epoll runtime is run)"]
@@ -101,17 +111,27 @@ class C14(Prop):
                 return X.probe_values(bdir, [("v", name)], self.const_headers, self.const_prelude)["v"]
             except X.TieBroken:
                 raise X.TieBroken("guard:flush_message.errno", "errno name %s of flush_message is not a constant" % name)
-        return T.extract(src, errno_value)
+        sites = T.shape_checks(lambda rel: open(os.path.join(E.REPO, rel), errors="replace").read())
+        self.shape_sites = sites
+        return T.extract(src, errno_value) + "\n\n-- control-flow shapes checked against the source on this run (props/c14_extract.py SHAPES):\n-- " \
+            + "\n-- ".join(sites)
 
     def prepare(self, ctx):
         self.exe = E.compile_harness("c14", [os.path.join(E.VERIF, "harness/c14/c14.c")], exclude_objs=("comm.c.o",))
-        self.conf = E.make_mudlib(ctx.rundir)
+        self.conf = E.make_mudlib(ctx.rundir, master="/c14/master.c")
 
     def run_impl(self, ctx, cases):
         return E.run_harness(self.exe, self.conf, cases, ctx.rundir)
 
     def canon(self, lines):
-        return [l for l in Prop.canon(self, lines) if not (l.startswith("logon") or l.startswith("net_dead"))]
+        """every line is tagged u<k>; the property is per user, so the lines are grouped by user (stable): the order in
+        which the driver visits the users during one pass (slot order / epoll order) is not part of the comparison"""
+        ls = [l for l in Prop.canon(self, lines) if not (l.startswith("logon") or l.startswith("net_dead"))]
+
+        def key(l):
+            t = l.split(" ", 1)[0]
+            return int(t[1:]) if t[:1] == "u" and t[1:].isdigit() else 99
+        return sorted(ls, key=key)
 
     # ---- boundary -----------------------------------------------------------
     def boundary(self):
@@ -207,6 +227,25 @@ class C14(Prop):
         mk("console-epipe", ["connect console", "sendres P", w(b"x\n"), w(b"y\n"), "close"])
         mk("console-close-pending", ["connect console", "sendres W", w(b"abc\n"), "sendres 2", "close", w(b"z")])
         mk("ascii-explicit", ["connect ascii", w(b"a\n")])
+        # several users: independent rings and scripts, one pass of the driver serves all of them; snoop forwarding
+        mk("two-users-independent", ["@1 sendres W", "@2 sendres 2,I", w(b"one\n"), "@2 " + w(b"two\n"), "cycle", "wready",
+                                     "@2 dump"])
+        mk("three-users-kinds", ["@1 connect telnet", "@2 connect console", "@3 connect ascii", "@3 sendres W",
+                                 "@1 " + w(b"a\n"), "@2 " + w(b"b\n"), "@3 " + vw(b"c\n"), "flushall", "@2 dump", "@3 dump"])
+        mk("snoop-basic", ["@2 snoop 1", w(b"seen\n"), vw(b"also\n"), "@2 unsnoop", w(b"unseen\n"), "@2 dump"])
+        mk("snoop-broken-connection", ["@2 snoop 1", "sendres W,P", w(filler(N)), w(b"x"), w(b"y"), vw(b"z"), "@2 dump"])
+        mk("snoop-tail-dropped", ["@2 snoop 1", "sendres W,W", w(filler(N + 50)), vw(filler(60)), "@2 dump"])
+        mk("snoop-loop-refused", ["@2 snoop 1", "@1 snoop 2", w(b"a\n"), "@2 " + w(b"b\n"), "@3 snoop 2", "@1 snoop 3",
+                                  "@2 " + w(b"c\n"), "@3 " + w(b"d\n"), "@2 dump", "@3 dump"])
+        mk("snoop-replaced", ["@2 snoop 1", "@3 snoop 1", w(b"a\n"), "@3 snoop 2", w(b"b\n"), "@2 " + w(b"c\n"),
+                              "@2 dump", "@3 dump"])
+        mk("snooper-closes", ["@2 snoop 1", w(b"a\n"), "@2 close", w(b"b\n"), "@2 dump"])
+        mk("snoopee-closes", ["@2 snoop 1", "close", w(b"b\n"), "@2 snoop 1", "@2 dump"])
+        mk("snoop-high-bytes", ["@2 snoop 1", w(bytes([0xc3, 0xa9, 0xff, 0x80, 0x0a, 0xe2, 0x82])), "@2 dump"])
+        mk("efun-flush", ["sendres W", w(b"p\n"), "eflush", "@2 sendres 1,W", "@2 " + w(b"q\n"), "flushall", "@2 eflush", "@2 dump"])
+        mk("peerfin-serves-others", ["@2 sendres W", "@2 " + w(b"pending\n"), "@2 flush", "@1 peerfin", "@2 dump"])
+        mk("peerclose-serves-others", ["@2 sendres W", "@2 " + w(b"pending\n"), "@2 flush", "sendres W", w(b"mine\n"),
+                                       "sendres 2,P", "@1 peerclose", "@2 dump"])
         return B
 
     # ---- random ---------------------------------------------------------------
@@ -256,40 +295,56 @@ class C14(Prop):
         if k == "any":
             return str(rng.range(1, N))
         if k == "E":
-            return "E104" if rng.chance(9, 10) else "P"
+            return rng.weighted([("E104", 6), ("P", 1), ("E11", 2), ("E4", 1)])      # E11/E4: EWOULDBLOCK/EINTR as plain numbers
         return k
 
     def gen_case(self, rng, cid):
         body = []
         offset = 0
-        kind = rng.weighted([("ascii", 5), ("telnet", 3), ("console", 3), (None, 2)])
-        if kind:
-            if rng.chance(1, 3):
-                body.append("sendres " + ",".join(self.gen_tok(rng, 0) for _ in range(rng.range(1, 3))))
-            body.append("connect " + kind)
+        nusers = rng.weighted([(1, 6), (2, 3), (3, 2)])
+        kinds = {}
+        have_console = False
+        for u in range(1, nusers + 1):
+            kind = rng.weighted([("ascii", 5), ("telnet", 3), ("console", 0 if have_console else 3), (None, 2)])
+            have_console = have_console or kind == "console"
+            kinds[u] = kind
+            if kind:
+                if rng.chance(1, 3):
+                    body.append("@%d sendres " % u + ",".join(self.gen_tok(rng, 0) for _ in range(rng.range(1, 3))))
+                body.append("@%d connect %s" % (u, kind))
         if rng.chance(1, 2):
             offset = rng.range(1, N - 1)
             body += [w(filler(offset, rng.below(1000))), "flush"]
-        closed_at = None
+        closed = {}
         for _ in range(rng.range(3, 25)):
-            if closed_at is not None and len(body) - closed_at > 3:
-                break           # after the connection went away only a few more ops are interesting
-            k = rng.weighted([("write", 10), ("vwrite", 3), ("sendres", 8), ("flush", 4), ("cycle", 3), ("wready", 4),
-                              ("close", 1), ("peerfin", 1), ("peerclose", 1), ("dump", 1)])
-            if kind == "console" and k in ("peerfin", "peerclose"):
+            if closed and len(closed) == nusers and len(body) - max(closed.values()) > 3:
+                break           # after every connection went away only a few more ops are interesting
+            u = rng.range(1, nusers)
+            at = "" if (u == 1 and rng.chance(1, 2)) else "@%d " % u
+            k = rng.weighted([("write", 10), ("vwrite", 3), ("sendres", 8), ("flush", 3), ("eflush", 1), ("cycle", 3),
+                              ("wready", 4), ("flushall", 1), ("close", 1), ("peerfin", 1), ("peerclose", 1), ("dump", 1),
+                              ("snoop", 3 if nusers > 1 else 0), ("unsnoop", 1 if nusers > 1 else 0)])
+            if kinds[u] == "console" and k in ("peerfin", "peerclose"):
                 k = "close"     # the console has no peer socket
             if k in ("write", "vwrite"):
-                body.append("%s %s" % (k, hx(self.gen_msg(rng, self.gen_len(rng)))))
+                ln = self.gen_len(rng)
+                if nusers > 1 and ln > N:
+                    ln = rng.choice([ln, rng.range(0, 200)])      # keep multi-user cases small enough for the quick tier
+                body.append("%s%s %s" % (at, k, hx(self.gen_msg(rng, ln))))
             elif k == "sendres":
-                body.append("sendres " + ",".join(self.gen_tok(rng, offset) for _ in range(rng.range(1, 6))))
+                body.append(at + "sendres " + ",".join(self.gen_tok(rng, offset if u == 1 else 0) for _ in range(rng.range(1, 6))))
             elif k in ("close", "peerfin", "peerclose"):
-                # closing makes the rest of the case trivial: at most once, and not in every case
-                if closed_at is None and rng.chance(1, 3):
-                    body.append(k)
-                    closed_at = len(body)
-            else:
+                # closing makes the rest of that user's case trivial: at most once per user, and not in every case
+                if u not in closed and rng.chance(1, 3):
+                    body.append(at + k)
+                    closed[u] = len(body)
+            elif k == "snoop":
+                body.append("%ssnoop %d" % (at, rng.range(1, nusers)))
+            elif k in ("cycle", "wready", "flushall"):
                 body.append(k)
-        body += ["flush", "dump"]
+            else:
+                body.append(at + k)
+        body += ["flushall"] + ["@%d dump" % u for u in range(1, nusers + 1)]
         return E.Case(cid, body, {"origin": "generated"})
 
     def generate(self, rng, n, tier):
@@ -301,12 +356,71 @@ class C14(Prop):
     def histogram(self, cases, impl):
         h = {"send_accept_full": 0, "send_accept_partial": 0, "send_W": 0, "send_I": 0, "send_P": 0, "send_Eother": 0,
              "send_offered_lt_pending": 0, "writes": 0, "vwrites": 0, "max_msg_len": 0, "cases_ring_full": 0,
-             "cases_wrapped": 0, "closes": 0, "cases_dead": 0, "want_set": 0}
+             "cases_wrapped": 0, "closes": 0, "cases_dead": 0, "want_set": 0,
+             # branches of the model (seen from the trace)
+             "inloop_flush_sends": 0, "inloop_refused_giveup": 0, "inloop_refused_after_progress": 0, "inloop_dead": 0,
+             "vwrite_trailing_flush_sends": 0, "writes_on_dead_or_closed": 0,
+             "lf_guard_chunk_N_minus_1": 0, "snoop_forwards": 0, "users_ascii_or_default": 0, "users_telnet": 0,
+             "users_console": 0, "cases_multi_user": 0, "peerfin": 0, "peerclose": 0, "eflush_or_flushall": 0,
+             "sendres_E_keep": 0}
         for c in cases:
+            users = set()
+            for l in c.lines:
+                t = l.split()
+                if t and t[0].startswith("@"):
+                    users.add(t[0])
+                    t = t[1:]
+                if t[:1] == ["connect"]:
+                    h["users_" + ("telnet" if t[1] == "telnet" else "console" if t[1] == "console" else "ascii_or_default")] += 1
+                elif t[:1] == ["peerfin"]:
+                    h["peerfin"] += 1
+                elif t[:1] == ["peerclose"]:
+                    h["peerclose"] += 1
+                elif t[:1] in (["eflush"], ["flushall"]):
+                    h["eflush_or_flushall"] += 1
+                elif t[:1] == ["sendres"] and len(t) > 1:
+                    h["sendres_E_keep"] += sum(1 for x in t[1].split(",") if x in ("E11", "E4"))
+            if len(users - {"@1"}) > 0:
+                h["cases_multi_user"] += 1
+            inw = {}        # per user: None / [kind, sends so far, last was accept, gone at start]
+            gone = {}
+            for l in impl.get(c.id, []):
+                t = l.split()
+                if len(t) < 2 or not t[0].startswith("u"):
+                    continue
+                u, t = t[0], t[1:]
+                if t[0] == "wbeg":
+                    inw[u] = [t[1], 0, False]
+                    if gone.get(u):
+                        h["writes_on_dead_or_closed"] += 1
+                elif t[0] == "wend":
+                    inw[u] = None
+                elif t[0] == "snoop":
+                    h["snoop_forwards"] += 1
+                elif t[0] == "close" or (t[0] == "st" and (t[1] == "closed" or t[-1] == "1")):
+                    gone[u] = True
+                elif t[0] == "send" and inw.get(u):
+                    w_ = inw[u]
+                    w_[1] += 1
+                    if t[1] == str(N - 1):
+                        h["lf_guard_chunk_N_minus_1"] += 1
+                    if t[2] == "a":
+                        h["inloop_flush_sends"] += 1
+                        w_[2] = True
+                    elif t[2] in ("W", "I", "E11", "E4"):
+                        h["inloop_refused_after_progress" if w_[2] else "inloop_refused_giveup"] += 1
+                        w_[2] = False
+                    else:
+                        h["inloop_dead"] += 1
+                        gone[u] = True
+                    if w_[0] == "v":
+                        h["vwrite_trailing_flush_sends"] += 1
             full = wrapped = dead = False
             pending = 0
             for l in impl.get(c.id, []):
                 t = l.split()
+                if t and t[0][:1] == "u" and t[0][1:].isdigit():
+                    t = t[1:]
                 if not t:
                     continue
                 if t[0] == "send" and len(t) >= 4:
